@@ -238,6 +238,8 @@ class UnitResult:
         self.prelude_fns = 0
         self.fn_ms = {}
         self.seeds = []
+        self.clause_owners = {}
+        self.fn_names = []
 
 
 TRUST_PAT = re.compile(r"(external_body|external_type_specification|external_trait_specification|external_fn_specification|assume_specification|\bassume\s*\(|\badmit\s*\(|\buninterp\b|verifier::external\b(?!_)|verifier::trusted)")
@@ -330,6 +332,24 @@ def process_unit(unit, tier, keep=False, verbose=False, seed=0):
         pos = e
     pre.append(gen["text"][pos:])
     r.explicit = sum(count_clauses(a) for a in ann) + sum(count_clauses(p) for p in pre)
+    # clause counts per owner (extracted item or prelude function), used to de-duplicate shared fragments
+    owners = {}
+    for (s_, e_, idx, segs) in gen["regions"]:
+        key = r.functions[idx]["key"]
+        n = 0
+        for (os_, oe, kind, tag, _src) in segs:
+            if kind == "ins" and tag.startswith("R-ann"):
+                n += count_clauses(gen["text"][s_ + os_:s_ + oe])
+        if n:
+            owners["item:" + key] = n
+    item_spans = [(s_, e_) for (s_, e_, _i, _sg) in gen["regions"]]
+    for (fs, fe, name) in fn_ranges(gen["text"]):
+        if any(s_ <= fs < e_ for (s_, e_) in item_spans):
+            continue
+        n = count_clauses(gen["text"][fs:fe])
+        if n:
+            owners["prelude:" + name] = max(owners.get("prelude:" + name, 0), n)
+    r.clause_owners = owners
     r.trusted = scan_trusted(gen["text"])
     declared = set()
     for tf in (os.path.join(udir, "trusted.txt"), os.path.join(UNITS, "common", "trusted.txt")):
@@ -348,6 +368,7 @@ def process_unit(unit, tier, keep=False, verbose=False, seed=0):
     vres = jr.get("verification-results", {})
     r.verified = vres.get("verified", 0)
     r.errors = vres.get("errors", 0)
+    r.fn_names = sorted(k.split("::", 1)[1] for k in jr.get("func-details", {}) if k.startswith(unit + "::"))
     try:
         smt = jr["times-ms"]["smt"]
         r.solver_ms = smt.get("total", 0)
@@ -526,11 +547,19 @@ def cmd_run(a):
         os.remove(evp)
     with cf.ThreadPoolExecutor(max_workers=min(6, len(units))) as ex:
         results = list(ex.map(lambda u: process_unit(u, tier, seed=seed), units))
+    why = {}
+    for u in units + ["common"]:
+        tf = os.path.join(UNITS, u, "trusted.txt")
+        if os.path.isfile(tf):
+            for l in open(tf):
+                if "#" in l and l.split("#")[0].strip():
+                    why.setdefault(l.split("#")[0].strip(), l.split("#", 1)[1].strip())
     known = load_known()
     known_ids = {k["obligation"]: k for k in known.get("findings", []) if k.get("property") == prop}
     rc = 0
     viol_lines, known_lines, und_lines = [], [], []
     total_obl = total_dis = 0
+    distinct_fns, distinct_clauses, all_failed, undecided_units = set(), {}, set(), 0
     fn_list, trusted, samples, mutants, seeds = [], set(), [], [], []
     for r in results:
         nfail = 0
@@ -559,25 +588,39 @@ def cmd_run(a):
             und_lines.append(f"UNDECIDED unit={r.unit} {r.reason}")
             if rc == 0:
                 rc = 2
-        obl = r.verified + r.errors + r.explicit
-        total_obl += obl
-        total_dis += max(0, obl - nfail) if r.status != "undecided" else 0
+        all_failed.update(obligation_id(r.unit, f).split("::", 1)[1] for f in r.failures)
+        for fn in r.fn_names:
+            distinct_fns.add(fn)
+        for o, n in r.clause_owners.items():
+            distinct_clauses[o] = max(distinct_clauses.get(o, 0), n)
+        if r.status == "undecided":
+            undecided_units += 1
         for f in r.functions:
             f2 = dict(f, unit=r.unit)
             fn_list.append(f2)
-        trusted.update(f"{r.unit}: {t}" for t in r.trusted)
+        trusted.update(f"{r.unit}: {t}" + (f" -- {why[t]}" if why.get(t) else "") for t in r.trusted)
         mutants += [dict(m, unit=r.unit) for m in r.mutants]
         seeds += [dict(s, unit=r.unit) for s in r.seeds]
+    # shared fragments are included by several units: every function / clause is counted ONCE per property
+    total_obl = len(distinct_fns) + sum(distinct_clauses.values())
+    total_dis = 0 if undecided_units else max(0, total_obl - len(all_failed))
     # samples: a few obligations written out
+    seen_s = set()
     for r in results:
         try:
             gen = rsx.generate(os.path.join(UNITS, r.unit))
-            for (s, e, i, segs) in gen["regions"][:40]:
+            cands = []
+            for (s, e, i, segs) in gen["regions"]:
                 for (os_, oe, kind, tag, _src) in segs:
-                    if kind == "ins" and tag == "R-ann(contract)" and len(samples) < 8:
-                        samples.append({"obligation": f"{r.unit}::{gen['items'][i].name}::contract", "text": norm(gen["text"][s + os_:s + oe], 400)})
+                    if kind == "ins" and tag == "R-ann(contract)":
+                        cands.append((oe - os_, gen["items"][i].name, gen["text"][s + os_:s + oe]))
                         break
-                if len(samples) >= 8:
+            for (_n, name, text) in sorted(cands, reverse=True):
+                if name in seen_s:
+                    continue
+                seen_s.add(name)
+                samples.append({"obligation": f"{r.unit}::{name}::contract", "text": norm(text, 600)})
+                if sum(1 for x in samples if x["obligation"].startswith(r.unit + "::")) >= 2:
                     break
         except Exception:
             pass
@@ -592,7 +635,8 @@ def cmd_run(a):
             "checker_cmd": "; ".join(sorted({r.cmd for r in results if r.cmd})) or "verus <unit>.rs --output-json --time --error-format=json",
             "trusted_base": sorted(trusted) + idx.get("trusted_base_common", []) + pinfo.get("trusted_base", []),
             "explanation": pinfo.get("what", ""),
-            "obligation_counting_rule": "obligations = functions Verus checked (each bundles its implicit safety obligations: overflow, index bounds, callee preconditions, unreachable panics, termination) + explicit requires/ensures/invariant/decreases/assert clauses counted in the spliced annotations and the prelude",
+            "obligation_counting_rule": "obligations = distinct functions Verus checked (each bundles its implicit safety obligations: overflow, index bounds, callee preconditions, unreachable panics, termination) + distinct explicit requires/ensures/invariant/decreases/assert clauses in the spliced annotations and the prelude; a function or clause of a fragment shared by several units of the property is counted once",
+            "distinct_functions": len(distinct_fns), "distinct_explicit_clauses": sum(distinct_clauses.values()),
             "units": [{"unit": r.unit, "status": r.status, "reason": r.reason, "functions_verified": r.verified, "verus_errors": r.errors,
                        "explicit_clauses": r.explicit, "solver_ms": r.solver_ms, "wall_s": round(r.wall, 2), "backend": "verus-z3",
                        "vacuity_twin": {"splices": r.twin_expected, "refuted": r.twin_hit},
